@@ -131,6 +131,86 @@ func substVar(body, name, repl string) string {
 	return b.String()
 }
 
+// conjunctForalls returns the universally quantified top-level conjuncts of a term.
+func conjunctForalls(body string, out *[]string) {
+	body = strings.TrimSpace(body)
+	if strings.HasPrefix(body, "(and ") {
+		for _, c := range sexpList(body)[1:] {
+			conjunctForalls(c, out)
+		}
+		return
+	}
+	if strings.HasPrefix(body, "(forall ") {
+		*out = append(*out, body)
+	}
+}
+
+func instances(fa string, sks []skolem) []string {
+	bs, body, ok := parseForall(fa)
+	if !ok {
+		return nil
+	}
+	insts := []string{body}
+	for _, b := range bs {
+		var next []string
+		for _, in := range insts {
+			for _, s := range sks {
+				if s.sort == b.sort {
+					next = append(next, substVar(in, b.name, s.name))
+				}
+			}
+		}
+		insts = next
+		if len(insts) > 32 {
+			insts = insts[:32]
+		}
+	}
+	return insts
+}
+
+type skolem struct{ name, sort string }
+
+// skolemiseGoal strips leading universal quantifiers of the goal.
+func (vc *VC) skolemiseGoal(goal string) (string, []skolem, []string) {
+	var decls []string
+	var sks []skolem
+	g := goal
+	for {
+		bs, body, ok := parseForall(g)
+		if !ok {
+			break
+		}
+		for _, b := range bs {
+			vc.n++
+			n := fmt.Sprintf("sk!%d", vc.n)
+			decls = append(decls, "(declare-const "+n+" "+b.sort+")")
+			sks = append(sks, skolem{n, b.sort})
+			body = substVar(body, b.name, n)
+		}
+		g = body
+	}
+	return g, sks, decls
+}
+
+// defInstances: for every needed definition D whose body has a universally
+// quantified conjunct phi, (=> D phi[sk]) is a valid consequence.
+func (vc *VC) defInstances(needed map[string]bool, sks []skolem) []string {
+	var out []string
+	for _, d := range vc.defs {
+		if !needed[d.Name] || d.Body == "" || d.Sort != "Bool" || !strings.Contains(d.Body, "(forall ") {
+			continue
+		}
+		var fas []string
+		conjunctForalls(d.Body, &fas)
+		for _, fa := range fas {
+			for _, in := range instances(fa, sks) {
+				out = append(out, "(=> "+d.Name+" "+in+")")
+			}
+		}
+	}
+	return out
+}
+
 // pointwise rewrites (hyps, goal) as described above.
 func (vc *VC) pointwise(hyps []string, goal string) ([]string, string, []string) {
 	var decls []string
@@ -185,4 +265,194 @@ func (vc *VC) pointwise(hyps []string, goal string) ([]string, string, []string)
 		extra = append(extra, insts...)
 	}
 	return extra, g, decls
+}
+
+// ---- term-based instantiation for array-indexed hypotheses ----
+
+// arraySort infers the SMT sort string of an array-valued term, "" if unknown.
+func (vc *VC) arraySort(t string) string {
+	t = strings.TrimSpace(t)
+	if d, ok := vc.byName[t]; ok {
+		return d.Sort
+	}
+	if strings.HasPrefix(t, "(select ") {
+		p := sexpList(t)
+		if len(p) == 3 {
+			s := vc.arraySort(p[1])
+			sp := sexpList(s)
+			if len(sp) == 3 && sp[0] == "Array" {
+				return sp[2]
+			}
+		}
+		return ""
+	}
+	if strings.HasPrefix(t, "(store ") {
+		p := sexpList(t)
+		if len(p) == 4 {
+			return vc.arraySort(p[1])
+		}
+	}
+	if strings.HasPrefix(t, "(ite ") {
+		p := sexpList(t)
+		if len(p) == 4 {
+			return vc.arraySort(p[2])
+		}
+	}
+	return ""
+}
+
+// forEachSelect calls f(arr, idx) for every (select arr idx) in text.
+func forEachSelect(text string, f func(arr, idx string)) {
+	i := 0
+	for {
+		j := strings.Index(text[i:], "(select ")
+		if j < 0 {
+			return
+		}
+		j += i
+		// find matching paren
+		d := 0
+		end := -1
+		for k := j; k < len(text); k++ {
+			if text[k] == '(' {
+				d++
+			} else if text[k] == ')' {
+				d--
+				if d == 0 {
+					end = k
+					break
+				}
+			}
+		}
+		if end < 0 {
+			return
+		}
+		p := sexpList(text[j : end+1])
+		if len(p) == 3 {
+			f(p[1], p[2])
+		}
+		i = j + 8
+	}
+}
+
+// termInstances instantiates universally quantified conjuncts at index terms
+// that occur in array reads of the quantifier-free part of the query.
+func (vc *VC) termInstances(needed map[string]bool, hyps []string, goal string) []string {
+	// 1. ground index terms by key sort
+	ground := map[string]map[string]bool{} // key sort -> terms
+	addGround := func(text string) {
+		forEachSelect(text, func(arr, idx string) {
+			if strings.Contains(idx, "q!") || strings.Contains(idx, "j!") || strings.Contains(idx, "i!") {
+				return
+			}
+			s := vc.arraySort(arr)
+			sp := sexpList(s)
+			if len(sp) != 3 || sp[0] != "Array" {
+				return
+			}
+			if ground[sp[1]] == nil {
+				ground[sp[1]] = map[string]bool{}
+			}
+			ground[sp[1]][idx] = true
+		})
+	}
+	stripQ := func(body string) string {
+		// drop quantified sub-terms so their bound indexes are not collected
+		for {
+			k := strings.Index(body, "(forall ")
+			if k < 0 {
+				k = strings.Index(body, "(exists ")
+			}
+			if k < 0 {
+				return body
+			}
+			d := 0
+			end := len(body) - 1
+			for m := k; m < len(body); m++ {
+				if body[m] == '(' {
+					d++
+				} else if body[m] == ')' {
+					d--
+					if d == 0 {
+						end = m
+						break
+					}
+				}
+			}
+			body = body[:k] + "true" + body[end+1:]
+		}
+	}
+	for _, d := range vc.defs {
+		if needed[d.Name] && d.Body != "" {
+			addGround(stripQ(d.Body))
+		}
+	}
+	for _, h := range hyps {
+		addGround(stripQ(h))
+	}
+	addGround(stripQ(goal))
+	// 2. quantified conjuncts
+	var out []string
+	emit := func(guard, fa string) {
+		bs, body, ok := parseForall(fa)
+		if !ok || len(bs) != 1 {
+			return
+		}
+		b := bs[0]
+		cands := map[string]bool{}
+		forEachSelect(body, func(arr, idx string) {
+			if !strings.Contains(idx, b.name) {
+				return
+			}
+			for g := range ground[b.sort] {
+				switch {
+				case idx == b.name:
+					cands[g] = true
+				default:
+					p := sexpList(idx)
+					if len(p) == 3 && (p[0] == "bvadd" || p[0] == "+") {
+						sub := "bvsub"
+						if p[0] == "+" {
+							sub = "-"
+						}
+						if p[2] == b.name && !strings.Contains(p[1], b.name) {
+							cands["("+sub+" "+g+" "+p[1]+")"] = true
+						} else if p[1] == b.name && !strings.Contains(p[2], b.name) {
+							cands["("+sub+" "+g+" "+p[2]+")"] = true
+						}
+					}
+				}
+			}
+		})
+		n := 0
+		for _, c := range sortedKeys(cands) {
+			inst := substVar(body, b.name, c)
+			if guard != "" {
+				inst = "(=> " + guard + " " + inst + ")"
+			}
+			out = append(out, inst)
+			n++
+			if n >= 24 {
+				break
+			}
+		}
+	}
+	for _, h := range hyps {
+		var fas []string
+		conjunctForalls(h, &fas)
+		for _, fa := range fas {
+			emit("", fa)
+		}
+	}
+	for _, d := range vc.defs {
+		if !needed[d.Name] || d.Body == "" || d.Sort != "Bool" || !strings.Contains(d.Body, "(forall ") {
+			continue
+		}
+		var fas []string
+		conjunctForalls(d.Body, &fas)
+		for _, fa := range fas {
+			emit(d.Name, fa)
+		}
+	}
+	return out
 }
